@@ -173,6 +173,9 @@ def rule_compare(ctx, rule_op, rule_chain):
 # ------------------------------------------------------------------------------------------------ ratio comparison
 
 
+INT_HELPERS = {"div_euclid": ("DivE", 2), "rem_euclid": ("RemE", 2), "abs": ("Abs", 1), "signum": ("Signum", 1)}
+
+
 def _ev(x, env):
     from .absint import Sym
     if isinstance(x, Sym):
@@ -180,14 +183,26 @@ def _ev(x, env):
             return env[x.op]
         if len(x.args) == 1:
             v = _ev(x.args[0], env)
-            return -v if x.op == "Neg" and v is not None else None
+            if v is None:
+                return None
+            if x.op == "Abs":
+                return abs(v)
+            if x.op == "Signum":
+                return (v > 0) - (v < 0)
+            return -v if x.op == "Neg" else None
         l, r = _ev(x.args[0], env), _ev(x.args[1], env)
         if l is None or r is None:
             return None
-        if x.op in ("Div", "Rem"):
+        if x.op in ("Div", "Rem", "DivE", "RemE"):
             if r == 0:
                 return None
             q = abs(l) // abs(r) * (1 if (l < 0) == (r < 0) else -1)      # i32 division truncates towards zero
+            if x.op in ("DivE", "RemE"):
+                # i32::div_euclid / rem_euclid: the remainder is never negative
+                m = l - r * q
+                if m < 0:
+                    q, m = (q - 1, m + r) if r > 0 else (q + 1, m - r)
+                return q if x.op == "DivE" else m
             return q if x.op == "Div" else l - r * q
         return {"Mul": l * r, "Add": l + r, "Sub": l - r}.get(x.op)
     return x
@@ -907,7 +922,14 @@ def exact_arith_table(fb, fname, n_tests=7):
                     raise absint.Stuck("more than %d tests on symbolic values on one path" % len(schedule))
                 pc.append((op, x, y, schedule[i]))
                 return schedule[i]
-            mc = Machine(fb, max_visits=4, budget=400)
+            def icpt(mc_, cn, args, tt, g):
+                # integer helpers of std on symbolic integers: kept as terms, evaluated at the grid points (_ev)
+                end = cn.rsplit("::", 1)[-1]
+                if "core::num::<impl i32>::" in cn and end in INT_HELPERS and len(args) == INT_HELPERS[end][1] and \
+                        any(isinstance(x, Sym) for x in args) and all(isinstance(x, (Sym, int)) and not isinstance(x, bool) for x in args):
+                    return Sym(INT_HELPERS[end][0], *args)
+                return NOT
+            mc = Machine(fb, intercept=icpt, max_visits=4, budget=400)
             absint.SYM_COMPARE = symcmp
             try:
                 res = mc.run(f, [A, B])
@@ -994,6 +1016,11 @@ def rule_exact_arith(ctx, rule, ops):
                         got = ("nonpositive-denominator", comps) if comps[1] <= 0 else Fraction(comps[0], comps[1])
                     elif val.variant == nv.get("Real"):
                         got = "inexact"
+                if got is None:
+                    # the value returned on this path is not one the table can read (an unknown from a construct without a model)
+                    rows -= 1
+                    stuck += 1
+                    continue
                 if got != want and bad is None:
                     def lit(k_, r):
                         return ("%d/%d" % (env[r[0]], env[r[1]])) if k_ == "Rational" else str(env[r[0]])
